@@ -52,6 +52,14 @@ func genImpGraph(t *rapid.T, maxFiles int) impCase {
 	g.Edges = make([][]int, n)
 	g.Spell = make([][]string, n)
 	shape := rapid.IntRange(0, 5).Draw(t, "shape")
+	// some files are always imported under one alias ('import f3 as A3'): the same file reached twice
+	// under the same name is legal (only different names or versions are an error)
+	alias := make([]bool, n)
+	if rapid.IntRange(0, 2).Draw(t, "usealiases") == 0 {
+		for j := 1; j < n; j++ {
+			alias[j] = rapid.Bool().Draw(t, "aliased")
+		}
+	}
 	addEdge := func(i, j int) {
 		g.Edges[i] = append(g.Edges[i], j)
 		from := path.Dir(g.Paths[i])
@@ -74,6 +82,9 @@ func genImpGraph(t *rapid.T, maxFiles int) impCase {
 			s = "/" + "./" + target
 		default:
 			s = rel
+		}
+		if alias[j] {
+			s += fmt.Sprintf(" as Ns :: A%d", j)
 		}
 		g.Spell[i] = append(g.Spell[i], s)
 	}
@@ -287,6 +298,17 @@ func (g *impCase) classes() []string {
 			cl = append(cl, "diamond_or_shared")
 			break
 		}
+	}
+	aliasedTwice := false
+	for i, es := range g.Edges {
+		for k, y := range es {
+			if strings.Contains(g.Spell[i][k], " as ") && indeg[y] >= 2 {
+				aliasedTwice = true
+			}
+		}
+	}
+	if aliasedTwice {
+		cl = append(cl, "aliased_file_imported_from_two_places")
 	}
 	if g.Depth > 0 {
 		cl = append(cl, "depth_limit")
